@@ -75,7 +75,7 @@ def tla_value(v):
 CONSTS = ["G", "NodeIds", "CfgC", "DryAll", "AsgMin0", "AsgMax0", "AsgBoundsSet", "KC", "KM", "MaxPend", "EnvOn", "FaultOps",
           "MaxFaults", "TaintKinds", "InitNodes", "PropIds", "EmitRate"]
 
-MULTI_CONSTS = ["Gs", "NodeIdsOf", "CfgOf", "DryAll", "AsgMax0", "KC", "KM", "MaxPend", "EnvOn", "FaultOps", "MaxFaults", "InitNodes", "PropIds", "EmitRate"]
+MULTI_CONSTS = ["Gs", "NodeIdsOf", "CfgOf", "AsgMinOf", "DryAll", "AsgMax0", "KC", "KM", "MaxPend", "EnvOn", "FaultOps", "MaxFaults", "InitNodes", "PropIds", "EmitRate"]
 
 
 def write_model(d, outdir, name="MC", init="Init", next_="Next", view="View"):
@@ -103,8 +103,10 @@ def write_model_multi(d, outdir, name="MC"):
                  " ".join('IF g = "%s" THEN %s ELSE' % (g, tla_value(d["NodeIdsOf"][g])) for g in gs) + " {}"))
     lines.append("mc_CfgOf == [g \\in {%s} |-> %s]" % (", ".join('"%s"' % g for g in gs),
                  " ".join('IF g = "%s" THEN %s ELSE' % (g, tla_value(d["CfgOf"][g])) for g in gs) + " " + tla_value(d["CfgOf"][gs[0]])))
+    lines.append("mc_AsgMinOf == [g \\in {%s} |-> %s]" % (", ".join('"%s"' % g for g in gs),
+                 " ".join('IF g = "%s" THEN %d ELSE' % (g, d["AsgMinOf"][g]) for g in gs) + " 0"))
     for c in MULTI_CONSTS:
-        if c not in ("Gs", "NodeIdsOf", "CfgOf"):
+        if c not in ("Gs", "NodeIdsOf", "CfgOf", "AsgMinOf"):
             lines.append("mc_%s == %s" % (c, tla_value(d[c])))
     lines.append("====")
     open("%s/%s.tla" % (outdir, name), "w").write("\n".join(lines) + "\n")
@@ -116,7 +118,7 @@ def write_model_multi(d, outdir, name="MC"):
 def multi(**kw):
     cfg_a = dict(BASE_CFG, min=0, max=2)
     cfg_b = dict(BASE_CFG, min=0, max=2, lower=20, upper=40, up=70)
-    d = dict(module="EscalatorMulti", Gs=["a", "default"], NodeIdsOf={"a": ["a1", "a2"], "default": ["d1"]}, CfgOf={"a": cfg_a, "default": cfg_b}, DryAll=False,
+    d = dict(module="EscalatorMulti", Gs=["a", "default"], NodeIdsOf={"a": ["a1", "a2"], "default": ["d1"]}, CfgOf={"a": cfg_a, "default": cfg_b}, AsgMinOf={"a": 1, "default": 0}, DryAll=False,
              AsgMax0=3, KC=1, KM=1, MaxPend=1, EnvOn=[], FaultOps=[], MaxFaults=0, InitNodes=1, PropIds=[], EmitRate=0,
              invariants=["TypeOK", "Emit", "InvIsolation"], workers=16)
     d.update(kw)
